@@ -1238,6 +1238,36 @@ func (c *Ctx) c6Scene(level int, big int) *c6Scene {
 				m.ptr = nil
 				m.exts = append([]c6Ext{}, m.exts...)
 				c.Note("mat.value-duplicate")
+				if c.Rng.Intn(2) == 0 { // near-duplicate: exactly one field differs, so the two must NOT be merged
+					nt := len(s.texs)
+					switch c.Rng.Intn(8) {
+					case 0:
+						if nt > 0 {
+							m.occl, m.occlSt = c.Rng.Intn(nt), c.c6OptF()
+						}
+					case 1:
+						if nt > 0 {
+							m.normal, m.normalSc = c.Rng.Intn(nt), c.c6OptF()
+						}
+					case 2:
+						m.occlSt = c.c6OptF()
+					case 3:
+						m.normalSc = c.c6OptF()
+					case 4:
+						if m.hasPbr {
+							m.metallic = c.c6OptF()
+						}
+					case 5:
+						m.emissive = c.c6Col()
+					case 6:
+						if m.hasPbr && nt > 0 {
+							m.bct = c.Rng.Intn(nt)
+						}
+					default:
+						m.name = "other"
+					}
+					c.Note("mat.near-duplicate")
+				}
 			} else {
 				c.c6Exts(&m, s, &pool)
 			}
